@@ -100,7 +100,53 @@ def run(ctx):
                     w.stores[s].v = w.stores[s].t = None
     tc.eval_model()
     retry_scenarios(ctx, uj)
+    bundled_sources(ctx, uj)
     file_dry_run(ctx, uj)
+
+
+def bundled_sources(ctx, uj):
+    """a dry run asks the bundled sources (also subclasses that override read) for their modified time only"""
+    import datetime as dt
+    from uberjob.stores import LiteralSource, ModifiedTimeSource
+    log = []
+
+    class Clock(ModifiedTimeSource):
+        def read(self):
+            log.append("read clock")
+            return super().read().date()           # hands the calendar day to the calls
+
+    class Lit(LiteralSource):
+        def read(self):
+            log.append("read literal")
+            return super().read()
+    for stale in (False, True):
+        plan, reg = uj.Plan(), uj.Registry()
+        t = reg.source(plan, Clock(dt.datetime(2024, 5, 1, 12)))
+        l_ = reg.source(plan, Lit("x", dt.datetime(2024, 5, 1)))
+        rep = plan.call(lambda d, v: "%s %s" % (d, v), t, l_)
+
+        class Out(uj.ValueStore):
+            v = None
+            tm = None if stale else dt.datetime(2024, 6, 1)
+
+            def read(self):
+                return self.v
+
+            def write(self, v):
+                log.append("write report")
+
+            def get_modified_time(self):
+                return self.tm
+        reg.add(rep, Out())
+        del log[:]
+        ctx.case(("c14-bundled-sources", stale))
+        try:
+            uj.run(plan, registry=reg, output=rep, dry_run=True, progress=None)
+            oc = "returned"
+        except BaseException as e:      # noqa
+            oc = "raised %s (%r)" % (type(e).__name__, getattr(e, "__cause__", None))
+        if log or oc != "returned":
+            ctx.fail("dry-run-touches-bundled-source", "a dry run over ModifiedTimeSource / LiteralSource subclasses %s and performed %r" % (oc, log), {"stale_report": stale})
 
 
 def file_dry_run(ctx, uj):
